@@ -157,6 +157,9 @@ func (r *Run) Record(res Result, sample func() any) {
 }
 
 func (r *Run) keep(f *Failure) {
+	if os.Getenv("VERIF_ALLFAILS") != "" {
+		fmt.Printf("FAILCASE %s | %s\n", f.Sig, f.Msg)
+	}
 	r.failCount[f.Sig]++
 	if old, ok := r.failures[f.Sig]; !ok || f.Rank < old.Rank {
 		r.failures[f.Sig] = f
